@@ -45,6 +45,7 @@ type Interp struct {
 	curIns  ssa.Instruction
 	urlQueries map[*Value]*Map
 	renderInts, renderJSON, renderQuote bool
+	seenFns map[*ssa.Function]bool
 }
 
 // fnInfo numbers the SSA values of a function so that frames can use a slice.
@@ -359,11 +360,9 @@ func (in *Interp) call(fr *frame, fnv Value, call *ssa.CallCommon, args []Value)
 }
 
 func (in *Interp) callFn(fr *frame, f *ssa.Function, call *ssa.CallCommon, args []Value, env []Value) Value {
-	name := f.String()
-	if f.Origin() != nil {
-		name = f.Origin().String()
-	}
-	if f.Pkg != nil && f.Name() == "init" && len(args) == 0 && f.Signature.Recv() == nil && f.Parent() == nil {
+	fm := metaOf(f)
+	name := fm.name
+	if fm.isInit && len(args) == 0 {
 		// package initialisers: only allow-listed packages are initialised
 		path := f.Pkg.Pkg.Path()
 		if !initAllow[path] {
@@ -371,8 +370,8 @@ func (in *Interp) callFn(fr *frame, f *ssa.Function, call *ssa.CallCommon, args 
 		}
 		in.initDone[path] = true
 	}
-	if ic, ok := intrinsics[name]; ok {
-		r := ic(in, fr, call, args)
+	if fm.intr != nil {
+		r := fm.intr(in, fr, call, args)
 		if _, fall := r.(fallThrough); !fall {
 			return r
 		}
@@ -381,6 +380,30 @@ func (in *Interp) callFn(fr *frame, f *ssa.Function, call *ssa.CallCommon, args 
 		in.unsupported("call of external function %s", name)
 	}
 	return in.callSSA(f, args, env)
+}
+
+// fnMeta caches what is derived from a function's name.
+type fnMeta struct {
+	name   string
+	intr   Intrinsic
+	isInit bool
+	inPkg  bool
+}
+
+var fnMetas sync.Map
+
+func metaOf(f *ssa.Function) *fnMeta {
+	if v, ok := fnMetas.Load(f); ok {
+		return v.(*fnMeta)
+	}
+	m := &fnMeta{name: f.String()}
+	if f.Origin() != nil {
+		m.name = f.Origin().String()
+	}
+	m.intr = intrinsics[m.name]
+	m.isInit = f.Pkg != nil && f.Name() == "init" && f.Signature.Recv() == nil && f.Parent() == nil
+	fnMetas.Store(f, m)
+	return m
 }
 
 // fallThrough is returned by an intrinsic that declines (e.g. symbolic arguments where
@@ -403,17 +426,25 @@ func (in *Interp) callSSA(f *ssa.Function, args []Value, env []Value) Value {
 	}
 	fr.block = f.Blocks[0]
 	if f.Pkg != nil && f.Pkg == in.P.Pkg {
-		in.noteFunc(f)
+		if in.seenFns == nil {
+			in.seenFns = map[*ssa.Function]bool{}
+		}
+		in.seenFns[f] = true
 	}
 	in.runFrame(fr)
 	return fr.result
 }
 
-func (in *Interp) noteFunc(f *ssa.Function) {
-	name := f.String()
+// flushFuncs merges the functions executed on this path into the run's set.
+func (in *Interp) flushFuncs() {
+	if len(in.seenFns) == 0 {
+		return
+	}
 	ex := in.Path.Ex
 	ex.resMu.Lock()
-	ex.FuncsSeen[name] = true
+	for f := range in.seenFns {
+		ex.FuncsSeen[metaOf(f).name] = true
+	}
 	ex.resMu.Unlock()
 }
 
@@ -1688,7 +1719,7 @@ func roundupsize(sz uint64) uint64 {
 	return (sz + 8191) &^ 8191
 }
 
-func (in *Interp) countInstr() { atomic.AddInt64(&in.Path.Ex.Instr, in.instr) }
+func (in *Interp) countInstr() { atomic.AddInt64(&in.Path.Ex.Instr, in.instr); in.flushFuncs() }
 
 // Where describes the instruction being executed (for diagnostics).
 func (in *Interp) Where() string {
